@@ -127,6 +127,9 @@ func (ex *Exec) load(lv *lval) Val {
 	case lvHeapField:
 		v := Select(ex.get(ex.st, ex.heapKey(lv.st, lv.f)), lv.ref)
 		ex.assume(ex.typeFact(lv.typ, v))
+		if isPointer(lv.typ) || isInterface(lv.typ) {
+			ex.assume(Lt(v, ex.get(ex.st, "$alloc")))
+		}
 		return Val{v, lv.typ}
 	case lvValField:
 		p := ex.load(lv.parent)
@@ -852,6 +855,9 @@ func (ex *Exec) havocKey(k string) {
 	if k == "$alloc" {
 		ex.assume(Le(cur, nv))
 	}
+	if strings.HasPrefix(k, "$") {
+		ex.heapWF(k, nv, false)
+	}
 	ex.st.env[k] = nv
 }
 
@@ -948,8 +954,13 @@ func (ex *Exec) execLoop(lp *loopParts) {
 		keys = append(keys, k)
 	}
 	sortStrings(keys)
+	if mod["$alloc"] {
+		ex.havocKey("$alloc")
+	}
 	for _, k := range keys {
-		ex.havocKey(k)
+		if k != "$alloc" {
+			ex.havocKey(k)
+		}
 	}
 	invs("assume")
 	variant := func() *T {
